@@ -27,7 +27,9 @@ WATCH = (os.path.join(runner.REPO, 'clastic') + os.sep, '<sinter')
 VALUES = ['v', '', 'é-ünï-☃', '<b>&=?;,"\\', 0, 1, -7, 2.5, 1e100, True, False, None, [], {}, [1, [2, [3]]],
           {'a': {'b': [None, 'x']}}, 'a' * 200, ' ', '+/=', [{'k': 'v'}, 2],
           # JSON texts whose base64 needs the '+' and '/' digits, at every alignment
-          'what?', '->', 'a->', 'ab->', '~', 'x~', 'xy~', '???', '>>>', '?>~', 'a?b>c~d', ['?', '>', '~'], {'q?': '>~'}, '\x7f', 'ÿþý']
+          'what?', '->', 'a->', 'ab->', '~', 'x~', 'xy~', '???', '>>>', '?>~', 'a?b>c~d', ['?', '>', '~'], {'q?': '>~'}, '\x7f', 'ÿþý',
+          # strings no UTF-8 encoder accepts (half of a surrogate pair, as a JavaScript client that cuts an emoji sends it)
+          '\ud83d', 'x\udc00y', {'n': ['\ud83d', 1]}, '\U0001f600', '\x00']
 KEYS = ['k', 'j', 'user', 'ünï', 'a b', 'k&k', 'k=k', '']
 TAMPERS = ['flip', 'flip', 'trunc', 'extend', 'swap', 'resign', 'random', 'nonascii', 'badb64', 'nosep',
            'quotes', 'junk_in_mac', 'strip_pad', 'empty', 'only_sep', 'dup_item', 'expiry_forge', 'unsigned_json']
@@ -154,7 +156,7 @@ class C16(Check):
     level_text = ('Seeded search over client/clock/tamper histories with a token-registry oracle; the space is '
                   'unbounded (byte strings x times), so sampling with targeted boundary steps is the honest level.')
     level_note = 'Trusted: HMAC-SHA1 itself; the harness registry of issued tokens; simulated clock seams.'
-    required_probes = ('server-not-in-utc', 'concurrent-clients', 'two-cookie-servers', 'expired-empty', 'valid-at-exact-expiry', 'tamper-empty', 'tamper-source-data',
+    required_probes = ('binary-secret-key', 'other-servers-token-presented', 'other-servers-token-presented-to-binary-keyed-server', 'server-not-in-utc', 'concurrent-clients', 'two-cookie-servers', 'expired-empty', 'valid-at-exact-expiry', 'tamper-empty', 'tamper-source-data',
                        'cross-client-seen', 'replay-old-token', 'backward-jump-valid-again')
 
     def gen_config(self, rng):
@@ -162,7 +164,8 @@ class C16(Check):
                 'expiry': rng.choice([0, 'never', 50, 50, 3600, 2.5, 1]),
                 'arg_name': rng.choice(['cookie', 'cookie', 'sess']),
                 'cookie_name': rng.choice([None, None, 'sid', 'my-cookie']),
-                'key': rng.choice(['server-key', 'server-key', 'k', None]),
+                # 'hex:' = a binary secret (e.g. read from /dev/urandom once and kept in a file): not valid UTF-8
+                'key': rng.choice(['server-key', 'server-key', 'k', None, 'hex:fffe7365727665720080', 'hex:c328a0a1']),
                 'nclients': rng.choice([1, 2, 2, 3])}
 
     def generate(self, seed, tier):
@@ -171,7 +174,13 @@ class C16(Check):
         if S['config'].random() < 0.4:
             # a second application with its own SignedCookieMiddleware (other expiry / key) in the same process
             second = self.gen_config(S['config'])
-            second['key'] = (second['key'] or 'k2') + '-second'
+            if (cfg['key'] or '').startswith('hex:') and S['config'].random() < 0.7:
+                # the neighbour's binary secret differs from this server's in its non-UTF-8 bytes only
+                second['key'] = {'hex:fffe7365727665720080': 'hex:fdfc7365727665720081', 'hex:c328a0a1': 'hex:c329a1a0'}[cfg['key']]
+            elif (second['key'] or '').startswith('hex:'):
+                second['key'] = 'hex:00' + second['key'][4:]
+            else:
+                second['key'] = (second['key'] or 'k2') + '-second'
             second['nclients'] = cfg['nclients']
             cfg['second'] = second
         rng, frng, erng = S['ops'], S['faults'], S['env']
@@ -225,8 +234,11 @@ class C16(Check):
                 ops.append(op)
             elif r < 0.93:
                 ops.append({'op': 'replay', 'c': c, 'back': rng.randint(1, 4)})
-            else:
+            elif r < 0.97 or not cfg.get('second'):
                 ops.append({'op': 'cross', 'c': c, 'other': rng.randrange(nc)})
+            else:
+                # a token the OTHER server of this process issued (its own key) is presented here
+                ops.append({'op': 'cross_server', 'c': c, 'other': rng.randrange(nc)})
         if cfg.get('second'):
             for op in ops:
                 op['srv'] = 1 if rng.random() < 0.4 else 0
@@ -262,7 +274,9 @@ class C16(Check):
             sm.patch(ck, 'os', osp)
             states = []
             for n, scfg in enumerate([cfg] + ([cfg['second']] if cfg.get('second') else [])):
-                key = scfg['key'].encode() if scfg['key'] else None
+                key = (bytes.fromhex(scfg['key'][4:]) if scfg['key'].startswith('hex:') else scfg['key'].encode()) if scfg['key'] else None
+                if scfg['key'] and scfg['key'].startswith('hex:'):
+                    res.probe('binary-secret-key')
                 kw = dict(arg_name=scfg['arg_name'], secret_key=key, expiry=scfg['expiry'])
                 if scfg['cookie_name']:
                     kw['cookie_name'] = scfg['cookie_name']
@@ -274,6 +288,8 @@ class C16(Check):
                 states.append(_State(scfg, clock, mw.cookie_name, app, res))
             if len(states) > 1:
                 res.probe('two-cookie-servers')
+            for st in states:
+                st.peers = states
             for step, op in enumerate(plan['ops']):
                 st = states[op.get('srv', 0) % len(states)]
                 st.step = step
@@ -624,6 +640,18 @@ class _State(object):
         tok = self.issued[c][max(0, len(self.issued[c]) - 1 - op['back'])]
         self.res.probe('replay-old-token')
         self.byzantine(c, tok, None, 'replay', False, 'replay')
+
+    def op_cross_server(self, op):
+        c = op['c']
+        others = [p for p in getattr(self, 'peers', []) if p is not self]
+        toks = [t for p in others for lst in p.issued for t in lst[-1:]]
+        if not toks:
+            return self.honest(c, 'read', None, None, [])
+        tok = toks[op.get('other', 0) % len(toks)]
+        self.res.probe('other-servers-token-presented')
+        if self.cfg['key'] and self.cfg['key'].startswith('hex:'):
+            self.res.probe('other-servers-token-presented-to-binary-keyed-server')
+        self.byzantine(c, tok, None, 'cross_server', False, 'tamper')
 
     def op_cross(self, op):
         c, o = op['c'], op['other'] % len(self.clients)
